@@ -49,7 +49,11 @@ GUARDS = [
     ("compiled_layer_exact_class", "compiled", "CompiledLogicNet", "_parse_model",
      "if isinstance(layer, base) and type(layer) is not base:\n                    raise ValueError"),
     ("compiled_patched_rule", "compiled", "CompiledLogicNet", "_refuse_patched",
-     "if 'forward' in vars(module) or module._forward_hooks or module._forward_pre_hooks:\n        raise ValueError", "top-if"),
+     "if patched or module._forward_hooks or module._forward_pre_hooks:\n        raise ValueError"),
+    ("compiled_global_hooks", "compiled", "CompiledLogicNet", "_refuse_patched",
+     "if hooks._global_forward_hooks or hooks._global_forward_pre_hooks:\n        raise ValueError"),
+    ("compiled_groupsum_k_now", "compiled", "CompiledLogicNet", "_parse_model", "if not layer.k > 0:\n                    raise ValueError"),
+    ("compiled_groupsum_tau_now", "compiled", "CompiledLogicNet", "_parse_model", "layer._check_tau(layer.tau)"),
     ("conv2_param", "conv", "LogicConv2d", "__init__", "if parametrization not in ('raw', 'walsh'):\n        raise ValueError"),
     ("conv2_weight_init", "conv", "LogicConv2d", "__init__", "if weight_init not in ('residual', 'random'):\n        raise ValueError"),
     ("conv2_sampling", "conv", "LogicConv2d", "__init__",
